@@ -64,11 +64,13 @@ def diff(requests, impl_replies, model_replies):
     bad = []
     for i, (q, a, b) in enumerate(zip(requests, impl_replies, model_replies)):
         na, nb = norm(a), norm(b)
-        if isinstance(na, dict) and isinstance(nb, dict) and "sess" in na and "sess" in nb:
-            # internals may be unobservable on the implementation side after a refactor
-            for k in list(nb["sess"].keys()):
-                if k not in na["sess"]:
-                    nb["sess"].pop(k)
+        for key in ("sess", "ok"):
+            if isinstance(na, dict) and isinstance(nb, dict) and isinstance(na.get(key), dict) and isinstance(nb.get(key), dict) \
+                    and "state" in na[key] and "state" in nb[key]:
+                # internals may be unobservable on the implementation side after a refactor
+                for k in list(nb[key].keys()):
+                    if k not in na[key]:
+                        nb[key].pop(k)
         if na != nb:
             bad.append((i, q, a, b))
     return bad
